@@ -23,6 +23,7 @@ from .model_matrix import ModelMatrix
 from .parser import DefaultFormulaParser
 from .parser.types import Factor, FormulaParser, OrderedSet, Term
 from .utils.calculus import differentiate_term
+from .utils.code import sanitize_variable_names
 from .utils.deprecations import deprecated
 from .utils.structured import Structured
 from .utils.variables import Variable, get_expression_variables
@@ -542,9 +543,14 @@ class SimpleFormula(
                     # need not be a valid Python expression (e.g. `my col`).
                     variables.append(Variable(factor.expr, roles=["value"]))
                 else:
+                    # Back-ticked names that are not Python identifiers are
+                    # sanitized before parsing (as during materialization), and
+                    # reported under their original names.
+                    aliases: dict[str, str] = {}
+                    expr = sanitize_variable_names(factor.expr, {}, aliases)
                     variables.extend(
                         variable
-                        for variable in get_expression_variables(factor.expr, {})
+                        for variable in get_expression_variables(expr, {}, aliases)
                         if "value" in variable.roles
                     )
 
